@@ -264,6 +264,22 @@ pub fn execute(case: &Value, _scratch: &str) -> Outcome {
             format!("content of the original and of its first re-save differ: {}", diff_summary(&p_orig, &chain[0].p)),
         ));
     }
+    // the same judged without the library's reader on either side: the reader may read the original and its
+    // re-save through the same mistake (a cached text result "007" guessed to be a number both times)
+    if src_kind != "corpus" {
+        if let (Ok(d0), Some(d1)) = (decode::decode(&input), &chain[0].d) {
+            out.step("independent_orig_vs_gen1", 1);
+            let (a, b) = (d0.content(), d1.content());
+            if a != b {
+                out.violate(Verdict::new(
+                    "C04",
+                    "C04:first-resave-changes-content",
+                    &[("source", facet_src), ("kind", &first_key(&a, &b)), ("via", "decoder")],
+                    format!("the original file and its first re-save decode (independently of the library) to different content: {}", diff_summary(&a, &b)),
+                ));
+            }
+        }
+    }
     // fixed point: gen1 == gen2 == gen3 ...
     for g in 1..chain.len() {
         if chain[g].deep != chain[0].deep {
